@@ -381,7 +381,6 @@ func ruleC10Errors(p *Program, r *Run) {
 
 	// Error methods that slice by a span must be guarded by IsValid unless their spans are token-only (parseError).
 	for _, pk := range p.Lib() {
-		inf := pk.TypesInfo
 		for _, fd := range AllFuncs(pk) {
 			if fd.Name.Name != "Error" || fd.Recv == nil {
 				continue
@@ -403,22 +402,11 @@ func ruleC10Errors(p *Program, r *Run) {
 				r.Pass("C10/errors", fn+" uses the span unguarded", p.Pos(fd.Pos()), "every parseError construction site records a token span (checked above)")
 				continue
 			}
-			guarded := false
-			if len(fd.Body.List) > 0 {
-				if ifs, ok := fd.Body.List[0].(*ast.IfStmt); ok {
-					if u, ok := ast.Unparen(ifs.Cond).(*ast.UnaryExpr); ok && u.Op == token.NOT {
-						if call, ok := ast.Unparen(u.X).(*ast.CallExpr); ok {
-							if f := Callee(inf, call); f != nil && f.Name() == "IsValid" {
-								if len(ifs.Body.List) > 0 {
-									if _, isRet := ifs.Body.List[len(ifs.Body.List)-1].(*ast.ReturnStmt); isRet {
-										guarded = true
-									}
-								}
-							}
-						}
-					}
-				}
-			}
+			// every use of the span's offsets happens on a path where span.IsValid() is known to hold
+			gc := &spanGuardClient{}
+			eng := NewEngine(p, pk, fd, gc)
+			eng.Run(nil)
+			guarded := gc.uses > 0 && gc.unguarded == 0 && len(eng.Errs) == 0
 			r.Check(guarded, "C10/errors", fn+" guards the span with IsValid()", p.Pos(fd.Pos()), "invalid spans are not used for line/column computation", "an error type whose span may be invalid (-1) computes line:column from it without an IsValid() guard: source[:-1] panics")
 		}
 	}
@@ -504,4 +492,37 @@ func ruleC10Slices(p *Program, r *Run) {
 	}
 	r.Floor("C10/slices", 4)
 	_ = strings.TrimSpace
+}
+
+// spanGuardClient: offsets of a span (.Start/.End) are read only where IsValid() of that span is known to be true.
+type spanGuardClient struct {
+	BaseClient
+	uses      int
+	unguarded int
+}
+
+func (c *spanGuardClient) Visit(e *Engine, st *State, n ast.Node) *State {
+	sel, ok := n.(*ast.SelectorExpr)
+	if !ok || (sel.Sel.Name != "Start" && sel.Sel.Name != "End") || TypeStr(e.Info.TypeOf(sel.X)) != "parser.Span" {
+		return nil
+	}
+	if !e.Reporting() {
+		return nil
+	}
+	c.uses++
+	k := e.CanonSt(st, sel.X)
+	ok2 := false
+	if k.OK {
+		for _, key := range st.Keys() {
+			if strings.HasPrefix(key, "call:") && strings.HasSuffix(key, ".IsValid("+k.Key+")") {
+				if f := st.Get(key); f != nil && f.HasEq && f.Eq == "true" {
+					ok2 = true
+				}
+			}
+		}
+	}
+	if !ok2 {
+		c.unguarded++
+	}
+	return nil
 }
